@@ -18,13 +18,17 @@ import (
 )
 
 type cfg struct {
-	Limit             uint32 `json:"set_max_read_frame_size"` // 0: SetMaxReadFrameSize is not called (default 2^24-1)
+	Limit             uint32 `json:"set_max_read_frame_size"`                // 0: SetMaxReadFrameSize is not called (default 2^24-1)
+	LimitZero         bool   `json:"set_max_read_frame_size_zero,omitempty"` // SetMaxReadFrameSize(0): only empty frames may be read
 	Meta              bool   `json:"read_meta_headers,omitempty"`
 	MaxList           uint32 `json:"max_header_list_size,omitempty"`
 	AllowIllegalReads bool   `json:"allow_illegal_reads,omitempty"`
 }
 
 func (c cfg) effLimit() uint32 {
+	if c.LimitZero {
+		return 0
+	}
 	if c.Limit == 0 || c.Limit > 1<<24-1 {
 		return 1<<24 - 1
 	}
@@ -32,6 +36,9 @@ func (c cfg) effLimit() uint32 {
 }
 
 func (c cfg) String() string {
+	if c.LimitZero {
+		return fmt.Sprintf("{limit=0(set) meta=%v maxlist=%d allowIllegalReads=%v}", c.Meta, c.MaxList, c.AllowIllegalReads)
+	}
 	return fmt.Sprintf("{limit=%d meta=%v maxlist=%d allowIllegalReads=%v}", c.Limit, c.Meta, c.MaxList, c.AllowIllegalReads)
 }
 
@@ -285,7 +292,7 @@ func readFork(stream []byte, c cfg) (outs []outcome, pan any) {
 		}
 	}()
 	fr := lf.NewFramer(io.Discard, bytes.NewReader(stream))
-	if c.Limit != 0 {
+	if c.Limit != 0 || c.LimitZero {
 		fr.SetMaxReadFrameSize(c.Limit)
 	}
 	if c.Meta {
@@ -389,7 +396,7 @@ func readX(stream []byte, c cfg) (outs []outcome, pan any) {
 		}
 	}()
 	fr := xf.NewFramer(io.Discard, bytes.NewReader(stream))
-	if c.Limit != 0 {
+	if c.Limit != 0 || c.LimitZero {
 		fr.SetMaxReadFrameSize(c.Limit)
 	}
 	if c.Meta {
